@@ -27,8 +27,8 @@ density guard, `prepare_segmented(data, True, …)` -/
 theorem gen_fchk_skeleton : Gen.PrepareSkeleton.fchk = Skel.fchk := by decide +kernel
 /-- `molden.prepare_dump`: three guards, un-restriction, segmentation without SP exemption -/
 theorem gen_molden_skeleton : Gen.PrepareSkeleton.molden = Skel.moBasis "Molden" false := by decide +kernel
-/-- `molekel.prepare_dump` -/
-theorem gen_molekel_skeleton : Gen.PrepareSkeleton.molekel = Skel.moBasis "Molekel" false := by decide +kernel
+/-- `molekel.prepare_dump`: as Molden plus the electron-count guard right after the generalized-orbitals guard -/
+theorem gen_molekel_skeleton : Gen.PrepareSkeleton.molekel = Skel.moBasis "Molekel" false true := by decide +kernel
 /-- `wfn.prepare_dump`: as Molden plus the Cartesian-only loop before the conversions -/
 theorem gen_wfn_skeleton : Gen.PrepareSkeleton.wfn = Skel.moBasis "WFN" true := by decide +kernel
 /-- `wfx.prepare_dump` -/
@@ -93,15 +93,6 @@ theorem needS_true_iff (b : Basis) : needS true b = true ↔ ∃ sh ∈ b, Gener
 
 theorem hasNonCart_iff (b : Basis) : hasNonCart b = true ↔ HasPure b := by
   simp [hasNonCart, HasPure]
-
-/-- the formats with the Molden-like body and whether they have the Cartesian-only loop -/
-def IsMoBasis (f : Fmt) : Prop := f = .molden ∨ f = .molekel ∨ f = .wfn ∨ f = .wfx
-def cartOnly : Fmt → Bool
-  | .wfn => true | .wfx => true | _ => false
-
-theorem prepareDump_moBasis (s : Bool) (f : Fmt) (hf : IsMoBasis f) (allow : Bool) (d : Obj) :
-    prepareDump s f allow d = moBasis (cartOnly f) allow d := by
-  rcases hf with rfl | rfl | rfl | rfl <;> rfl
 
 /-! ### FCHK -/
 
@@ -313,21 +304,15 @@ theorem fchk_accepts (s allow : Bool) (d : Obj) (b : Basis) (hb : d.obasis = som
 
 /-! ### Molden, Molekel, WFN, WFX -/
 
-/-- **prepare_rejects_iff (Molden, Molekel, WFN, WFX).**  For valid orbitals, `prepare_dump` raises exactly when
-* orbitals or orbital basis are missing (both are declared required, so `_check_required` refuses first), or
-* the orbitals are generalized, or
-* (WFN, WFX only) some basis function is not Cartesian — also with `allow_changes`, or
-* `allow_changes` is off and `occs_aminusb` is set or some shell is a generalized contraction (SP included);
-and every such rejection is a `PrepareDumpError` (never another class). -/
-theorem mobasis_rejects_iff (s : Bool) (f : Fmt) (hf : IsMoBasis f) (allow : Bool) (d : Obj)
-    (hv : ∀ m, d.mo = some m → Inv m) :
-    ((∃ c r, prepareDump s f allow d = .raised c r) ↔
+/-- the shared body (`moBasis c`: Molden `c = false`, WFN/WFX `c = true`, and Molekel behind its electron-count
+guard): complete list of its rejection reasons, all of class `PrepareDumpError` -/
+theorem mobasis_core_rejects_iff (c allow : Bool) (d : Obj) (hv : ∀ m, d.mo = some m → Inv m) :
+    ((∃ cl r, moBasis c allow d = .raised cl r) ↔
       d.mo = none ∨ d.obasis = none ∨ (∃ m, d.mo = some m ∧ m.kind = .generalized) ∨
-      (cartOnly f = true ∧ ∃ b, d.obasis = some b ∧ HasPure b) ∨
+      (c = true ∧ ∃ b, d.obasis = some b ∧ HasPure b) ∨
       (allow = false ∧ ((∃ m, d.mo = some m ∧ m.aminusb ≠ none) ∨
                         (∃ b, d.obasis = some b ∧ ∃ sh ∈ b, Generalized sh)))) ∧
-    (∀ c r, prepareDump s f allow d = .raised c r → c = .prepareDump) := by
-  rw [prepareDump_moBasis s f hf]
+    (∀ cl r, moBasis c allow d = .raised cl r → cl = .prepareDump) := by
   cases hm : d.mo with
   | none => simp [moBasis, hm]
   | some m =>
@@ -335,30 +320,30 @@ theorem mobasis_rejects_iff (s : Bool) (f : Fmt) (hf : IsMoBasis f) (allow : Boo
     | none => simp [moBasis, hm, hb]
     | some b =>
       have hi := hv m hm
-      obtain ⟨t1, t2, t3, t4⟩ := moBasis_table (cartOnly f) allow d m b hm hb hi
-      have hard_iff : moHard (cartOnly f) m b = true ↔ m.kind = .generalized ∨ (cartOnly f = true ∧ HasPure b) := by
+      obtain ⟨t1, t2, t3, t4⟩ := moBasis_table c allow d m b hm hb hi
+      have hard_iff : moHard c m b = true ↔ m.kind = .generalized ∨ (c = true ∧ HasPure b) := by
         unfold moHard; rw [← hasNonCart_iff]; simp
       have soft_iff : (needU m || needS false b) = true ↔ m.aminusb ≠ none ∨ ∃ sh ∈ b, Generalized sh := by
         rw [Bool.or_eq_true, needU_iff_of_inv hi, needS_false_iff]
       simp only [reduceCtorEq, false_or, Option.some.injEq, exists_eq_left']
-      by_cases hh : moHard (cartOnly f) m b = true
+      by_cases hh : moHard c m b = true
       · obtain ⟨r, hr⟩ := t1 hh
-        refine ⟨⟨fun _ => ?_, fun _ => ⟨_, _, hr⟩⟩, fun c r' h => ?_⟩
+        refine ⟨⟨fun _ => ?_, fun _ => ⟨_, _, hr⟩⟩, fun cl r' h => ?_⟩
         · rcases hard_iff.mp hh with h | h
           · exact Or.inl h
           · exact Or.inr (Or.inl h)
         · rw [hr] at h; cases h; rfl
-      · have hh' : moHard (cartOnly f) m b = false := by simpa using hh
-        have nh : ¬ (m.kind = .generalized ∨ (cartOnly f = true ∧ HasPure b)) := fun h => hh (hard_iff.mpr h)
+      · have hh' : moHard c m b = false := by simpa using hh
+        have nh : ¬ (m.kind = .generalized ∨ (c = true ∧ HasPure b)) := fun h => hh (hard_iff.mpr h)
         by_cases hn : (needU m || needS false b) = true
         · cases allow with
           | false =>
             obtain ⟨r, hr⟩ := t2 hh' rfl hn
-            refine ⟨⟨fun _ => Or.inr (Or.inr ⟨rfl, soft_iff.mp hn⟩), fun _ => ⟨_, _, hr⟩⟩, fun c r' h => ?_⟩
+            refine ⟨⟨fun _ => Or.inr (Or.inr ⟨rfl, soft_iff.mp hn⟩), fun _ => ⟨_, _, hr⟩⟩, fun cl r' h => ?_⟩
             rw [hr] at h; cases h; rfl
           | true =>
             obtain ⟨m', _, hr⟩ := t4 hh' rfl hn
-            refine ⟨⟨fun ⟨c, r, h⟩ => ?_, fun h => ?_⟩, fun c r' h => ?_⟩
+            refine ⟨⟨fun ⟨cl, r, h⟩ => ?_, fun h => ?_⟩, fun cl r' h => ?_⟩
             · rw [hr] at h; cases h
             · rcases h with h | h | h
               · exact absurd (Or.inl h) nh
@@ -367,7 +352,7 @@ theorem mobasis_rejects_iff (s : Bool) (f : Fmt) (hf : IsMoBasis f) (allow : Boo
             · rw [hr] at h; cases h
         · have hn' : (needU m || needS false b) = false := by simpa using hn
           have hr := t3 hh' hn'
-          refine ⟨⟨fun ⟨c, r, h⟩ => ?_, fun h => ?_⟩, fun c r' h => ?_⟩
+          refine ⟨⟨fun ⟨cl, r, h⟩ => ?_, fun h => ?_⟩, fun cl r' h => ?_⟩
           · rw [hr] at h; cases h
           · rcases h with h | h | h
             · exact absurd (Or.inl h) nh
@@ -375,8 +360,68 @@ theorem mobasis_rejects_iff (s : Bool) (f : Fmt) (hf : IsMoBasis f) (allow : Boo
             · exact absurd (soft_iff.mpr h.2) hn
           · rw [hr] at h; cases h
 
+/-- the electron count of the orbitals is not an integer (Molekel's `$CHAR_MULT` holds an integer charge):
+`occs` is set and `|Σ occs − round_half_even(Σ occs)| > 1e-7` (the double literal, compared exactly) -/
+def FractionalNelec (m : MO) : Prop :=
+  ∃ o, m.occs = some o ∧ tol1em7 < absR (Orb.sum o - (roundHalfEven (Orb.sum o) : Int))
+
+theorem fractionalNelec_iff (m : MO) : fractionalNelec m = true ↔ FractionalNelec m := by
+  unfold fractionalNelec FractionalNelec nelec
+  cases m.occs with
+  | none => simp
+  | some o => simp
+
+/-- **prepare_rejects_iff (Molden, Molekel, WFN, WFX).**  For valid orbitals, `prepare_dump` raises exactly when
+* orbitals or orbital basis are missing (both are declared required, so `_check_required` refuses first), or
+* the orbitals are generalized, or
+* (WFN, WFX only) some basis function is not Cartesian — also with `allow_changes`, or
+* (Molekel only) the electron count `Σ occs` is fractional — also with `allow_changes`, or
+* `allow_changes` is off and `occs_aminusb` is set or some shell is a generalized contraction (SP included);
+and every such rejection is a `PrepareDumpError` (never another class). -/
+theorem mobasis_rejects_iff (s : Bool) (f : Fmt) (hf : IsMoBasis f) (allow : Bool) (d : Obj)
+    (hv : ∀ m, d.mo = some m → Inv m) :
+    ((∃ c r, prepareDump s f allow d = .raised c r) ↔
+      d.mo = none ∨ d.obasis = none ∨ (∃ m, d.mo = some m ∧ m.kind = .generalized) ∨
+      (cartOnly f = true ∧ ∃ b, d.obasis = some b ∧ HasPure b) ∨
+      (f = .molekel ∧ ∃ m, d.mo = some m ∧ FractionalNelec m) ∨
+      (allow = false ∧ ((∃ m, d.mo = some m ∧ m.aminusb ≠ none) ∨
+                        (∃ b, d.obasis = some b ∧ ∃ sh ∈ b, Generalized sh)))) ∧
+    (∀ c r, prepareDump s f allow d = .raised c r → c = .prepareDump) := by
+  rw [prepareDump_mo s f hf]
+  obtain ⟨core, ccls⟩ := mobasis_core_rejects_iff (cartOnly f) allow d hv
+  by_cases hfr : fracReject f d = true
+  · obtain ⟨hmk, m, b, hm, hb, hg, hfn⟩ := (fracReject_iff f d).mp hfr
+    simp only [hfr, if_true]
+    refine ⟨⟨fun _ => ?_, fun _ => ⟨_, _, rfl⟩⟩, fun c r h => by cases h; rfl⟩
+    exact Or.inr (Or.inr (Or.inr (Or.inr (Or.inl ⟨hmk, m, hm, (fractionalNelec_iff m).mp hfn⟩))))
+  · simp only [hfr, Bool.false_eq_true, if_false]
+    refine ⟨?_, ccls⟩
+    rw [core]
+    constructor
+    · rintro (h | h | h | h | h)
+      · exact Or.inl h
+      · exact Or.inr (Or.inl h)
+      · exact Or.inr (Or.inr (Or.inl h))
+      · exact Or.inr (Or.inr (Or.inr (Or.inl h)))
+      · exact Or.inr (Or.inr (Or.inr (Or.inr (Or.inr h))))
+    · rintro (h | h | h | h | h | h)
+      · exact Or.inl h
+      · exact Or.inr (Or.inl h)
+      · exact Or.inr (Or.inr (Or.inl h))
+      · exact Or.inr (Or.inr (Or.inr (Or.inl h)))
+      · -- the guard did not fire although the count is fractional: basis missing or orbitals generalized
+        obtain ⟨hmk, m, hm, hfn⟩ := h
+        cases hb : d.obasis with
+        | none => exact Or.inr (Or.inl rfl)
+        | some b =>
+          by_cases hg : m.kind = .generalized
+          · exact Or.inr (Or.inr (Or.inl ⟨m, hm, hg⟩))
+          · exact absurd ((fracReject_iff f d).mpr ⟨hmk, m, b, hm, hb, hg, (fractionalNelec_iff m).mpr hfn⟩) hfr
+      · exact Or.inr (Or.inr (Or.inr (Or.inr h)))
+
 /-- **prepare_same_iff / prepare_converts_iff (Molden, Molekel, WFN, WFX).**  When none of the reasons that
-no conversion can remove holds (orbitals valid, not generalized; Cartesian functions only for WFN/WFX):
+no conversion can remove holds (orbitals valid, not generalized; Cartesian functions only for WFN/WFX; an
+integer electron count for Molekel):
 * no `occs_aminusb` and no generalized contraction ⇒ the very same object, no warning, whatever `allow_changes`;
 * otherwise with `allow_changes`: a new object, the orbitals un-restricted when `occs_aminusb` was set (same alpha
   and beta occupations, coefficients, electron count, spin polarisation — C14), the basis segmented when it had a
@@ -384,7 +429,7 @@ no conversion can remove holds (orbitals valid, not generalized; Cartesian funct
   one warning per conversion, in that order. -/
 theorem mobasis_accepts (s : Bool) (f : Fmt) (hf : IsMoBasis f) (allow : Bool) (d : Obj) (m : MO) (b : Basis)
     (hm : d.mo = some m) (hb : d.obasis = some b) (hi : Inv m) (hg : m.kind ≠ .generalized)
-    (hc : ¬ (cartOnly f = true ∧ HasPure b)) :
+    (hc : ¬ (cartOnly f = true ∧ HasPure b)) (hfrac : ¬ (f = .molekel ∧ FractionalNelec m)) :
     (m.aminusb = none → (¬ ∃ sh ∈ b, Generalized sh) → prepareDump s f allow d = .ret d true []) ∧
     ((m.aminusb ≠ none ∨ ∃ sh ∈ b, Generalized sh) → allow = true →
       ∃ m', prepareDump s f allow d = .ret (moConverted d m b m') false (moWarns m b) ∧
@@ -393,7 +438,15 @@ theorem mobasis_accepts (s : Bool) (f : Fmt) (hf : IsMoBasis f) (allow : Bool) (
         (m.aminusb ≠ none → toUnrestricted m = .ok (m', false) ∧ m'.kind = .unrestricted ∧
             occsa m' = occsa m ∧ occsb m' = occsb m ∧ nelec m' = nelec m ∧ spinpol m' = spinpol m) ∧
         fns (segment false b) = fns b) := by
-  rw [prepareDump_moBasis s f hf]
+  have hfr : fracReject f d = false := by
+    cases hq : fracReject f d with
+    | false => rfl
+    | true =>
+      obtain ⟨hmk, m', b', hm', _, _, hfn⟩ := (fracReject_iff f d).mp hq
+      rw [hm] at hm'; cases hm'
+      exact absurd ⟨hmk, (fractionalNelec_iff m).mp hfn⟩ hfrac
+  rw [prepareDump_mo s f hf]
+  simp only [hfr, Bool.false_eq_true, if_false]
   obtain ⟨_, _, t3, t4⟩ := moBasis_table (cartOnly f) allow d m b hm hb hi
   have hh : moHard (cartOnly f) m b = false := by
     unfold moHard
@@ -518,7 +571,10 @@ where
   mo (s : Bool) (f : Fmt) (hf : IsMoBasis f) {allow : Bool} {d d' : Obj} {same : Bool} {ws : List Warn}
       (hv : ∀ m, d.mo = some m → Inv m) (h : prepareDump s f allow d = .ret d' same ws) :
       (same = true ↔ ws = []) ∧ (same = true → d' = d) ∧ (same = false → allow = true) ∧ ws.length ≤ 2 := by
-    rw [prepareDump_moBasis s f hf] at h
+    rw [prepareDump_mo s f hf] at h
+    by_cases hfr : fracReject f d = true
+    · simp [hfr] at h
+    simp only [hfr, if_false] at h
     cases hm : d.mo with
     | none => simp [moBasis, hm] at h
     | some m =>
@@ -535,8 +591,7 @@ where
             | true =>
               obtain ⟨m', _, hr⟩ := t4 hh' rfl hn
               rw [hr] at h
-              simp only [Outcome.ret.injEq] at h
-              obtain ⟨h1, h2, h3⟩ := h
+              injection h with h1 h2 h3
               subst h2 h3
               have : moWarns m b ≠ [] := by
                 unfold moWarns
@@ -545,8 +600,7 @@ where
               unfold moWarns; split <;> split <;> simp
           · have hn' : (needU m || needS false b) = false := by simpa using hn
             rw [t3 hh' hn'] at h
-            simp only [Outcome.ret.injEq] at h
-            obtain ⟨h1, h2, h3⟩ := h
+            injection h with h1 h2 h3
             subst h1 h2 h3; simp
 
 /-! ### through `api.dump_one` -/
@@ -657,6 +711,16 @@ example :
     prepareDump false .wfn true { mo := some (rmo [2]), obasis := some [dPure] } = .raised .prepareDump .pureFunctions ∧
     prepareDump false .molden false { mo := some (rmo [2]), obasis := some [dPure] }
       = .ret { mo := some (rmo [2]), obasis := some [dPure] } true [] := by decide +kernel
+
+/-- Molekel refuses a fractional electron count even with `allow_changes` (occupations `[2, 2, 5/4]` with
+`occs_aminusb`), accepts fractional occupations with an integer total; Molden converts the former -/
+example :
+    prepareDump false .molekel true { mo := some (rmo [2, 2, 5/4] (some [0, 0, 3/4])), obasis := some [sShell] }
+      = .raised .prepareDump .fractionalNelec ∧
+    prepareDump false .molekel false { mo := some (rmo [3/2, 1/2]), obasis := some [sShell] }
+      = .ret { mo := some (rmo [3/2, 1/2]), obasis := some [sShell] } true [] ∧
+    retInfo (prepareDump false .molden true { mo := some (rmo [2, 2, 5/4] (some [0, 0, 3/4])), obasis := some [sShell] })
+      = some (false, [.unrestricted], some .unrestricted, some 1) := by decide +kernel
 
 /-- through the extracted `dump_one`: a Molden object with `occs_aminusb`, no `allow_changes`, target
 pre-existing with content `[7, 7]` — refused, bytes kept, nothing opened -/
